@@ -59,6 +59,6 @@ func stringsAreExact(e *Env) {
 	bo := gate.Outcome{Kind: gate.ErrNil, Idx: 1}
 	e.requireGates("GATE", dbt, bo, noCfg,
 		gate.CallOK("B.head", "(*cbor.Decoder).decodeOfType", "param:d", "param:expected"),
-		gate.CallOK("B.copy", "io.CopyN", "alloc:bytes.Buffer", "param:d.r", "conv(call:(*cbor.Decoder).decodeOfType(param:d,param:expected)#0)"))
-	e.requireResult("RESULT", dbt, bo, 0, "call:(*bytes.Buffer).Bytes(alloc:bytes.Buffer)", "exactly the bytes copied")
+		gate.CallOK("B.copy", "io.CopyN", "{alloc:bytes.Buffer|local:*}", "param:d.r", "conv(call:(*cbor.Decoder).decodeOfType(param:d,param:expected)#0)"))
+	e.requireResult("RESULT", dbt, bo, 0, "call:(*bytes.Buffer).Bytes({alloc:bytes.Buffer|local:*})", "exactly the bytes copied")
 }
